@@ -1,6 +1,7 @@
 import InfluxQL.Model.ParserStmt
 import InfluxQL.Lemmas.Digits
 import InfluxQL.Lemmas.ParserTok
+import InfluxQL.Lemmas.IntLit
 /-
 C01 — the parser accepts the grammar and builds the denoted AST.
 
@@ -107,28 +108,6 @@ example : (parseStatement 10).run (exShowState ⟨.IDENT, ⟨0, 5⟩, ['x']⟩) 
   exact dispatch_step_error 10 19 1 0 _ ⟨.IDENT, ⟨0, 5⟩, ['x']⟩ rfl rfl (by decide) (by decide) (by decide) (by decide) (by decide)
 
 /-! ## integers in LIMIT-like positions -/
-
-theorem allDigits_natDigits (n : Nat) : allDigits (natDigits n) = true := by
-  unfold allDigits
-  have h1 := natDigits_ne_nil n
-  have h2 := natDigits_all_digits n
-  simp only [Bool.and_eq_true, decide_eq_true_eq, List.all_eq_true]
-  exact ⟨h1, h2⟩
-
-theorem splitSign_natDigits (n : Nat) : splitSign (natDigits n) = (false, natDigits n) := by
-  have h2 := natDigits_all_digits n
-  have hne := natDigits_ne_nil n
-  match hd : natDigits n with
-  | [] => exact absurd hd hne
-  | c :: rest =>
-    have hc : isDigit c = true := h2 c (by rw [hd]; exact List.mem_cons_self)
-    have h1 : c ≠ '-' := by intro h; rw [h] at hc; exact absurd hc (by decide)
-    have h3 : c ≠ '+' := by intro h; rw [h] at hc; exact absurd hc (by decide)
-    unfold splitSign
-    split
-    · next h => cases h; exact absurd rfl h1
-    · next h => cases h; exact absurd rfl h3
-    · rfl
 
 /-- `strconv.ParseInt` with the error dropped, on the decimal spelling of `n`: the value itself, or
 `MaxInt64` when it does not fit (the range hypothesis of DESIGN Appendix B made explicit). -/
